@@ -157,10 +157,12 @@ def shape(e, roles=None, depth=20):
                     arg = arg.x
                 if isinstance(arg, Var) and getattr(arg, "ok_payload", None) is not None and arg.local not in roles:
                     return shape(arg.ok_payload, roles, depth - 1)  # `?` on a value built as Ok(p)/Some(p) at one place: p
-                return "try(%s)" % shape(base.args[0], roles, depth - 1)
+                return _try_shape(shape(base.args[0], roles, depth - 1))
             v = inner.variant.lower()
             if v in ("some", "ok", "continue"):
                 v = "try"  # the payload on the success path, however it was taken (`?`, `if let`, `match`)
+            if v == "try":
+                return _try_shape(shape(inner.x, roles, depth - 1))
             return "%s(%s)" % (v, shape(inner.x, roles, depth - 1))
         return "%s.%s" % (shape(e.x, roles, depth - 1), e.name)
     if isinstance(e, Index):
@@ -732,6 +734,45 @@ def value_shape(body, local, roles=None):
     if isinstance(e, Var) and getattr(e, "lift", None) is not None:
         return shape(e, roles)
     return None
+
+
+def _try_shape(inner):
+    """The success payload of `inner`. The first element of a slice obtained through `first()` is
+    the element `[0]` (whether the emptiness was tested with is_empty() or by the Option)."""
+    m = _re.match(r"^slice::first\((.*)\)$", inner)
+    if m and _balanced(m.group(1)):
+        return "%s[0]" % m.group(1)
+    return "try(%s)" % inner
+
+
+def _balanced(s):
+    d = 0
+    for ch in s:
+        if ch in "([{":
+            d += 1
+        elif ch in ")]}":
+            d -= 1
+            if d < 0:
+                return False
+    return d == 0
+
+
+def test_forms(shape_str):
+    """Both spellings of one ordering test: `Lt(a,b)` and its negation `Le(b,a)` (a test and its
+    negation with swapped branches are the same program). Other shapes: just themselves."""
+    m = _re.match(r"^(Lt|Le|Eq|Ne)\((.*)\)$", shape_str)
+    if not m:
+        return frozenset([shape_str])
+    parts = _split_args(m.group(2))
+    if len(parts) != 2:
+        return frozenset([shape_str])
+    op, l, r = m.group(1), parts[0], parts[1]
+    neg = {"Lt": ("Le", r, l), "Le": ("Lt", r, l), "Eq": ("Ne", l, r), "Ne": ("Eq", l, r)}[op]
+    return frozenset(["%s(%s,%s)" % (op, l, r), "%s(%s,%s)" % neg])
+
+
+def same_test(a, b):
+    return bool(test_forms(a) & test_forms(b))
 
 
 def callable_body(e):
